@@ -180,7 +180,7 @@ claim("C10",
       "HashSet<Ident> is a shim with a ghost set view; in resolve_guards lookup_in is external (it is under contract in name_lookup, where Module::lookup is external: the mutual recursion is cut at the contracts, its termination is not proved); resolve_ident_wildcard, resolve_ident_fallback, ambiguous_error, expr_of_func are "
       "external; the drain loop over named parameters is replaced by its contract (stated in the evidence).")
 
-prop("C09", ["ident_quote", "ids_names", "rel_names", "ident_regex", "dialect_flags", "literals", "select_shape", "interp_ident", "lex_end_expr", "sql_relations", "anchor_names"], select={"sql_relations": lambda n: n.split(".", 1)[1] in ("RA1", "RA2", "table_alias_slice.safety"), "lex_end_expr": lambda n: ".continues." in n, "select_shape": lambda n: n.split(".", 1)[1] in ("SS2a", "SS2b", "SS2c", "translate_select_item.safety"), "dialect_flags": lambda n: n.rsplit(".", 1)[1] == "ident_quote", "literals": lambda n: n.split(".", 1)[1] in ("FM1", "FM2", "format_slice.safety")},
+prop("C09", ["ident_quote", "ids_names", "rel_names", "ident_regex", "dialect_flags", "literals", "select_shape", "interp_ident", "lex_end_expr", "sql_relations", "anchor_names", "sstring_cols", "literal_rows"], select={"literal_rows": lambda n: n.split(".", 1)[1] in ("LR1", "LR1i"), "sstring_cols": lambda n: n.split(".", 1)[1] in ("PN1", "PN2", "PN3") or n.split(".", 1)[1].startswith("name_one_item"), "sql_relations": lambda n: n.split(".", 1)[1] in ("RA1", "RA2", "table_alias_slice.safety"), "lex_end_expr": lambda n: ".continues." in n, "select_shape": lambda n: n.split(".", 1)[1] in ("SS2a", "SS2b", "SS2c", "translate_select_item.safety"), "dialect_flags": lambda n: n.rsplit(".", 1)[1] == "ident_quote", "literals": lambda n: n.split(".", 1)[1] in ("FM1", "FM2", "format_slice.safety")},
      not_covered="content of the keyword tables; freshness of generated names against user names that are not registered yet; "
                  "the order in which assign_names visits the declarations (a user table named like a generated name is only protected if it is visited first)")
 claim("C09",
@@ -191,7 +191,7 @@ claim("C09",
       "loaded id (IG1-3, SK1); names of one generator are pairwise distinct (NG1); at a pipeline split a re-declared column gets a name different from "
       "every name given at that split and the name is recorded (AS1a-c); every CTE gets a name different from the names of all CTEs named before it and every "
       "relation instance of a SELECT an alias different from those given before in that SELECT, while a name / alias that is present and unused is kept - the "
-      "user's table keeps its name (rel_names AN1-4, RN1-4; partial correctness: termination of the two regenerate-until-unused loops is not proved). the pattern of valid_ident() - compiled from the source literal into a spec function on every run - matches only `*` and texts of lower-case letters, digits, `_`, `$` that do not start with a digit, and matches every ordinary lower-case name (ident_regex RX1-3, for all character sequences). a keyword or literal word ends only where a bare name cannot continue: letters (also outside ASCII), digits and `_` continue it, so a column called `importé` or `nullable` is lexed as that name (lex_end_expr EE.continues rows). the alias of a table in FROM is left out only when the table's own name - the whole last part, dots inside a quoted name included - is that alias, so `<alias>.<column>` references bind (sql_relations RA1-2). the name recorded for a column (AnchorContext::ensure_column_name, load_names, whole): a column that brings a name along from its relation is recorded under exactly that name, a recorded name is never replaced, a generated name goes only to a column without either, and naming one column touches no other (anchor_names EN1-5, LN1). NOT proved: content of the keyword tables, capture of not-yet-registered "
+      "user's table keeps its name (rel_names AN1-4, RN1-4; partial correctness: termination of the two regenerate-until-unused loops is not proved). the pattern of valid_ident() - compiled from the source literal into a spec function on every run - matches only `*` and texts of lower-case letters, digits, `_`, `$` that do not start with a digit, and matches every ordinary lower-case name (ident_regex RX1-3, for all character sequences). a keyword or literal word ends only where a bare name cannot continue: letters (also outside ASCII), digits and `_` continue it, so a column called `importé` or `nullable` is lexed as that name (lex_end_expr EE.continues rows). the alias of a table in FROM is left out only when the table's own name - the whole last part, dots inside a quoted name included - is that alias, so `<alias>.<column>` references bind (sql_relations RA1-2). the name recorded for a column (AnchorContext::ensure_column_name, load_names, whole): a column that brings a name along from its relation is recorded under exactly that name, a recorded name is never replaced, a generated name goes only to a column without either, and naming one column touches no other (anchor_names EN1-5, LN1). the name declared for an un-aliased column of an s-string relation is the identifier's NAME, not its SQL rendering with quotes (sstring_cols PN1-3). NOT proved: content of the keyword tables, capture of not-yet-registered "
       "user names.",
       "regex, HashSet, OnceLock tables, dyn DialectHandler, sqlparser Ident constructors, format! are shims by contract.")
 
